@@ -247,8 +247,12 @@ class Exec:
 
     def under(self, tid):
         t = self.types[tid]
+        n = 0
         while t['kind'] == 'named':
             t = self.types[t['under']]
+            n += 1
+            if n > 50:
+                raise Unsupported('cyclic named type %s' % self.types[tid]['str'])
         return t
 
     def tname(self, tid):
@@ -295,6 +299,8 @@ class Exec:
         r = s.check()
         self.solver_calls += 1
         self.solver_time += time.time() - t
+        if os.environ.get('GOSYM_TRACE') and time.time() - t > 1.0:
+            print('[gosym] slow solver call %.1fs -> %s (pc=%d) in %s' % (time.time() - t, r, len(pc), getattr(self, 'cur_pos', '?')), flush=True)
         return str(r), s
 
     def feasible(self, st, cond):
@@ -421,6 +427,7 @@ class Exec:
             if fr.idx >= len(blk['instrs']):
                 raise Unsupported('fell off block %d of %s' % (fr.block, fr.fn['name']))
             ins = blk['instrs'][fr.idx]
+            self.cur_pos = ins.get('pos') or self.cur_pos if hasattr(self, 'cur_pos') else ins.get('pos')
             out = self.exec_instr(st, fr, ins)
             if out is not None:
                 return out
@@ -984,6 +991,9 @@ class Exec:
         if h is None:
             raise Unsupported('no stub for %s at %s' % (name, pos))
         out = h(self, st, args, {'name': name, 'pos': pos, 'ins': ins})
+        if isinstance(out, tuple) and len(out) == 3 and out[0] == 'tailcall':
+            # the stub delegates to a repo function (e.g. json.Marshal -> MarshalJSON method)
+            return self.invoke_value(st, fr, ('static', out[1]), out[2], ret_to, pos, ins)
         if isinstance(out, Forks):
             res = []
             for cond, val, mut in out.alts:
